@@ -177,5 +177,8 @@ fixed('F-ALIASSCHEMA', ['C06', 'C05'], '44e1889', 'a schema-qualified name whose
 fixed('F-DOUBLEBOM', ['C12'], '8760c83', 'the constructor stripped a byte order mark and then called parse, which strips one too: a text starting with two U+FEFF was accepted by PyDBML(source) and rejected by PyDBML.parse / parse_file',
       {'C12': dict(text='\ufeff\ufeffTable t {\n  id int\n}\n', options='default')}, 'pydbml/parser/parser.py:PyDBML.__new__')
 
+fixed('F-BIGINT', ['C08'], 'dcd88d0', 'a number default with more digits than int() converts (4301 and more on Python 3.11+) escaped from PyDBML.parse as ValueError',
+      {'C08': dict(text='Table t {\n  x int [default: ' + '1' * 4301 + ']\n}\n', gen='regression')}, 'pydbml/definitions/column.py:number_literal parse action')
+
 json.dump({'findings': F}, open(os.path.join(ROOT, 'known_findings.json'), 'w'), indent=1, ensure_ascii=False)
 print(len(F), 'findings written')
